@@ -128,7 +128,7 @@ Definition run_case (t : tree) : tree :=
     match as_db td, as_oq tq, as_bool ts, as_slice tl with
     | Some d, Some q, Some legacy, Some (off, lim) =>
       L [of_list (of_list of_item) (orm_exec_sl d q off lim legacy); of_nat (orm_count_sl d q off lim);
-         of_bool (if legacy then orm_exists_legacy d q off lim else orm_exists_sl d q off lim)]
+         of_bool (orm_exists_sl d q off lim)]
     | _, _, _, _ => bad_input
     end
   | _ => bad_input
